@@ -1399,7 +1399,16 @@ func (g *gen) refBurst(limit int) {
 			break
 		}
 		waited = 0
-		g.answerOne(burst[len(burst)-1], true) // newest first
+		// newest first; now and then the get fails at the messaging level (timeout, no responders):
+		// the slot must be handed on all the same
+		switch g.r.intn(5) {
+		case 0:
+			g.w.answer(burst[len(burst)-1], "timeout", nil, mq.ErrRequestTimeout)
+		case 1:
+			g.w.answer(burst[len(burst)-1], "noresponders", nil, mq.ErrNoResponders)
+		default:
+			g.answerOne(burst[len(burst)-1], true)
+		}
 	}
 	g.drain()
 	if len(seen) != len(leaves) && g.w.stall == "" {
